@@ -52,6 +52,12 @@ lemma pySlice_nat (i j n : Nat) (hi : i ≤ n) (hj : j ≤ n) :
   · have : ¬ ((j : Int) < 0) := by omega
     simp [this]; omega
 
+lemma max_neg_nat (k : Nat) : max (-(k : Int)) 0 = 0 := by omega
+lemma max_nat (i : Nat) : max (i : Int) 0 = (i : Int) := by omega
+lemma pySlice_zero_nat (j n : Nat) (hj : j ≤ n) : pySlice 0 (j : Int) n = (0, j) := by
+  have := pySlice_nat 0 j n (Nat.zero_le _) hj
+  simpa using this
+
 lemma foldl_add_shift (l : List Int) (a : Int) : l.foldl (· + ·) a = a + l.foldl (· + ·) 0 := by
   induction l generalizing a with
   | nil => simp
@@ -86,14 +92,14 @@ theorem radial_aligned (p : Params) (nr na i₀ i₁ : Nat) (hS : p.radial_sampl
     select p nr na (some (p.radial_offset + i₀ * p.radial_sampling, p.radial_offset + i₁ * p.radial_sampling)) none
       = .ok (i₀, i₁, 0, na) := by
   have hgt : ¬ ((i₁ : Int) > (nr : Int)) := by omega
-  simp [select, innerIndex, outerIndex, aligned_index _ hS _ _, pySlice_nat i₀ i₁ nr (le_trans h01 h1) h1, hgt]
+  simp [select, innerIndex, outerIndex, radialExceeded, radialLo, radialHi, aligned_index _ hS _ _, pySlice_nat i₀ i₁ nr (le_trans h01 h1) h1, hgt]
 
 /-- Azimuthal limits on bin edges `aoff + j₀·A`, `aoff + j₁·A` select exactly the bins `j₀ ≤ j < j₁`
 (and all radial bins). -/
 theorem azimuthal_aligned (p : Params) (nr na j₀ j₁ : Nat) (hA : p.azimuthal_sampling ≠ 0) (h01 : j₀ ≤ j₁) (h1 : j₁ ≤ na) :
     select p nr na none (some (p.azimuthal_offset + j₀ * p.azimuthal_sampling, p.azimuthal_offset + j₁ * p.azimuthal_sampling))
       = .ok (0, nr, j₀, j₁) := by
-  simp [select, leftIndex, rightIndex, aligned_index _ hA _ _, pySlice_nat j₀ j₁ na (le_trans h01 h1) h1]
+  simp [select, leftIndex, rightIndex, azimuthalLo, azimuthalHi, aligned_index _ hA _ _, pySlice_nat j₀ j₁ na (le_trans h01 h1) h1]
 
 /-- Both limits at once: exactly the bins in the product of the two index ranges. -/
 theorem both_aligned (p : Params) (nr na i₀ i₁ j₀ j₁ : Nat) (hS : p.radial_sampling ≠ 0) (hA : p.azimuthal_sampling ≠ 0)
@@ -102,8 +108,9 @@ theorem both_aligned (p : Params) (nr na i₀ i₁ j₀ j₁ : Nat) (hS : p.radi
         (some (p.azimuthal_offset + j₀ * p.azimuthal_sampling, p.azimuthal_offset + j₁ * p.azimuthal_sampling))
       = .ok (i₀, i₁, j₀, j₁) := by
   have hgt : ¬ ((i₁ : Int) > (nr : Int)) := by omega
-  simp [select, innerIndex, outerIndex, leftIndex, rightIndex, aligned_index _ hS _ _, aligned_index _ hA _ _,
-    pySlice_nat i₀ i₁ nr (le_trans hi hi1) hi1, pySlice_nat j₀ j₁ na (le_trans hj hj1) hj1, hgt]
+  simp [select, innerIndex, outerIndex, leftIndex, rightIndex, radialExceeded, radialLo, radialHi, azimuthalLo, azimuthalHi,
+    aligned_index _ hS _ _, aligned_index _ hA _ _, pySlice_nat i₀ i₁ nr (le_trans hi hi1) hi1,
+    pySlice_nat j₀ j₁ na (le_trans hj hj1) hj1, hgt]
 
 /-- An outer radial limit beyond the last bin edge is rejected (the code raises RuntimeError). -/
 theorem radial_exceeded_rejected (p : Params) (nr na i₀ i₁ : Nat) (hS : p.radial_sampling ≠ 0) (h1 : nr < i₁)
@@ -111,7 +118,60 @@ theorem radial_exceeded_rejected (p : Params) (nr na i₀ i₁ : Nat) (hS : p.ra
     select p nr na (some (p.radial_offset + i₀ * p.radial_sampling, p.radial_offset + i₁ * p.radial_sampling)) al
       = .error "runtime_error" := by
   have hgt : ((i₁ : Int) > (nr : Int)) := by omega
-  simp [select, outerIndex, aligned_index _ hS _ _, hgt]
+  simp [select, outerIndex, radialExceeded, aligned_index _ hS _ _, hgt]
+
+/-- `_limit_to_bin_index` on an edge below the first one: the index is the negative edge number … -/
+lemma aligned_index_neg (S : Rat) (hS : S ≠ 0) (i : Nat) (off : Rat) :
+    limitToBinIndex (off - (i : Rat) * S) off S = -(i : Int) := by
+  have hq : (off - (i : Rat) * S - off) / S = (((-(i : Int)) : Int) : Rat) := by
+    field_simp; push_cast; ring
+  unfold limitToBinIndex
+  simp only [hq]
+  have hfl : pyFloor ((((-(i : Int)) : Int) : Rat) + (1 : Rat) / 2) = -(i : Int) := pyFloor_int_add_half _
+  simp only [hfl]
+  have habs : pyAbs ((((-(i : Int)) : Int) : Rat) - (((-(i : Int)) : Int) : Rat)) = 0 := by simp [pyAbs]
+  have hnn : (0 : Rat) ≤ (1 : Rat) / 1000000000 * max (1 : Rat) (pyAbs (((-(i : Int)) : Int) : Rat)) := by
+    apply mul_nonneg (by norm_num)
+    exact le_trans (by norm_num) (le_max_left _ _)
+  simp only [habs, hnn, decide_true, if_true]
+  exact pyInt_intCast _
+
+/-- … so limits on lattice edges BELOW the first bin edge select exactly the bins inside the limits, i.e. from the first
+bin on (before fix the negative index was read from the end of the axis and the sum was silently empty or wrong). -/
+theorem radial_below_range_selects_from_first_bin (p : Params) (nr na k i₁ : Nat) (hS : p.radial_sampling ≠ 0) (h1 : i₁ ≤ nr) :
+    select p nr na (some (p.radial_offset - k * p.radial_sampling, p.radial_offset + i₁ * p.radial_sampling)) none
+      = .ok (0, i₁, 0, na) := by
+  have hgt : ¬ ((i₁ : Int) > (nr : Int)) := by omega
+  simp [select, innerIndex, outerIndex, radialExceeded, radialLo, radialHi, aligned_index _ hS _ _, aligned_index_neg _ hS _ _,
+    max_neg_nat, max_nat, pySlice_zero_nat i₁ nr h1, hgt]
+
+/-- the same for the azimuthal direction -/
+theorem azimuthal_below_range_selects_from_first_bin (p : Params) (nr na k j₁ : Nat) (hA : p.azimuthal_sampling ≠ 0) (h1 : j₁ ≤ na) :
+    select p nr na none (some (p.azimuthal_offset - k * p.azimuthal_sampling, p.azimuthal_offset + j₁ * p.azimuthal_sampling))
+      = .ok (0, nr, 0, j₁) := by
+  simp [select, leftIndex, rightIndex, azimuthalLo, azimuthalHi, aligned_index _ hA _ _, aligned_index_neg _ hA _ _,
+    max_neg_nat, max_nat, pySlice_zero_nat j₁ na h1]
+
+/-- Robustness of the edge index (what distinguishes the repaired code from plain truncation): a quotient within
+`1e-9·max(1,|x|)` of an integer `i` (and closer than 1/2) maps to `i`, from either side. -/
+theorem limitToBinIndex_near (lim off S : Rat) (i : Int)
+    (hnear : pyAbs ((lim - off) / S - i) ≤ (1 : Rat) / 1000000000 * max (1 : Rat) (pyAbs ((lim - off) / S)))
+    (hhalf : pyAbs ((lim - off) / S - i) < 1 / 2) :
+    limitToBinIndex lim off S = i := by
+  unfold limitToBinIndex
+  set x : Rat := (lim - off) / S with hx
+  have hfl : pyFloor (x + (1 : Rat) / 2) = i := by
+    unfold pyFloor
+    show ⌊x + 1 / 2⌋ = i
+    rw [Int.floor_eq_iff]
+    unfold pyAbs at hhalf
+    split_ifs at hhalf with h <;> constructor <;> push_cast <;> linarith
+  simp only [hfl, hnear, decide_true, if_true]
+  exact pyInt_intCast _
+
+/-- plain truncation (the code before fix 7d5491e6) does NOT have this property: 3 − 10⁻¹² truncates to 2 -/
+example : pyInt ((3 : Rat) - 1 / 1000000000000) = 2 ∧ limitToBinIndex ((3 : Rat) - 1 / 1000000000000) 0 1 = 3 := by
+  decide +kernel
 
 /-- The value returned for aligned limits is the sum of exactly the selected bins. -/
 theorem integrate_aligned_value (p : Params) (nr na i₀ i₁ j₀ j₁ : Nat) (bins : Nat → Nat → Int)
